@@ -1070,6 +1070,9 @@ where
         reply_receiver: CmdReplyReceiver,
         key_num: usize,
     ) -> TaskResult {
+        // `key_num` comes from the client, don't iterate more than the actual arguments.
+        let cmd_len = cmd_ctx.get_cmd().get_command_len().unwrap_or(0);
+        let key_num = std::cmp::min(key_num, cmd_len);
         let keys: Vec<_> = (3..3 + key_num)
             .filter_map(|i| cmd_ctx.get_cmd().get_command_element(i))
             .map(|b| b.to_vec())
